@@ -142,6 +142,7 @@ func run(r *vk.Run) {
 	lossyCollection(r)
 	cancelDuringSeed(r)
 	mixedSubscribers(r)
+	publishOrder(r)
 	lossyValue(r)
 	backpressure(r)
 	randomPacing(r)
@@ -549,6 +550,94 @@ func mixedSubscribers(r *vk.Run) {
 	r.Require("mixed-subscriber-scenarios", 50)
 }
 
+// publishOrder: writers queue behind a delivery that a backpressured, momentarily idle subscriber is holding up;
+// meanwhile a client opens a (seeded) subscription and writes right away, so that the parties waiting for their turn
+// to publish did not start waiting in the order of their turns. Once the idle subscriber receives again everybody
+// must get through: all writes return and every subscriber that keeps receiving ends up with the listing.
+func publishOrder(r *vk.Run) {
+	n := r.Pick(40, 2000)
+	for i := 0; i < n; i++ {
+		if !r.Mine(i) {
+			continue
+		}
+		rng := r.CaseRand("c09-puborder", i)
+		col := resource.NewCollection(resource.WithClock(clk{}))
+		ctx, cancel := context.WithCancel(context.Background())
+		slow := newConsumer()
+		slow.cancel = cancel
+		slow.runCol(col.Pull(ctx, resource.WithBackpressure(true)))
+		if _, ok := r.MustQuiesce("c09-po-open"); !ok {
+			slow.stop()
+			return
+		}
+		var tasks []*vk.Task
+		nw := rng.Range(2, 4)
+		for k := 0; k < nw; k++ {
+			id := fmt.Sprintf("w%d", k)
+			tasks = append(tasks, vk.Go(func() { col.Add(id, mkValLocked(id)) }))
+			vk.Quiesce()
+		}
+		// a client subscribes (with seed: it takes a place in the publish order) and writes at once
+		late := make([]*consumer, 0, 2)
+		nl := rng.Range(1, 2)
+		for k := 0; k < nl; k++ {
+			c := newConsumer()
+			c.cancel = func() {}
+			c.grant(1 << 20)
+			id := fmt.Sprintf("z%d", k)
+			bp := rng.Bool()
+			tasks = append(tasks, vk.Go(func() {
+				c.runCol(col.Pull(ctx, resource.WithBackpressure(bp)))
+				col.Add(id, mkValLocked(id))
+			}))
+			late = append(late, c)
+		}
+		vk.Quiesce()
+		slow.grant(1 << 20)
+		if _, ok := r.MustQuiesce("c09-po-drain"); !ok {
+			slow.stop()
+			return
+		}
+		r.Eval(1)
+		r.Count("publish-order-scenarios", 1)
+		r.Distinct(fmt.Sprintf("puborder|%d|%d", nw, nl))
+		stuck := 0
+		for _, t := range tasks {
+			if !t.Done() {
+				stuck++
+			}
+		}
+		if stuck > 0 {
+			r.Violation("C09/writer-blocked/pull/publish-order", fmt.Sprintf("case %d: %d of %d writers (%d of them writing right after opening a subscription) have not returned at the quiescent point after the slow backpressured subscriber resumed receiving\n%s", i, stuck, len(tasks), nl, vk.DescribeGs(vk.LibraryGoroutines(vk.Goroutines(), nil))), map[string]any{"case": i, "writers": nw, "late": nl})
+		} else {
+			list := col.List()
+			for k, c := range append([]*consumer{slow}, late...) {
+				c.mu.Lock()
+				evs := append([]*resource.CollectionChange{}, c.colEv...)
+				c.mu.Unlock()
+				view := vk.NewView(true)
+				for _, e := range evs {
+					view.Apply(e)
+				}
+				if !vk.SameList(view.Sorted(), list) {
+					r.Violation("C09/fold/collection/publish-order", fmt.Sprintf("case %d: subscriber %d folds to %s, List %s\nreceived:\n    %s", i, k, vk.ListJSON(view.Sorted()), vk.ListJSON(list), renderCol(evs)), map[string]any{"case": i})
+				}
+			}
+		}
+		slow.stop()
+		for _, c := range late {
+			c.mu.Lock()
+			c.quit = true
+			c.cond.Broadcast()
+			c.mu.Unlock()
+		}
+		if stuck > 0 {
+			return // leaked writers would disturb every later quiescence check of this worker
+		}
+	}
+	r.Require("publish-order-scenarios", 10)
+}
+
 func touchesA(steps []step) bool {
 	for _, s := range steps {
 		if s.ID == "a" {
@@ -889,7 +978,71 @@ func sendTimeout(r *vk.Run) {
 			slowButLive(r)
 		}()
 	}
+	// a Collection has no send timeout: a backpressured subscriber that pauses for longer than the Value timeout and
+	// then carries on still receives every change (the statement grants the timeout, with an error, to Value only)
+	if r.Mine(1) {
+		wg.Add(1)
+		go func() {
+			defer wg.Done()
+			collectionLongPause(r)
+		}()
+	}
 	wg.Wait()
+}
+
+func collectionLongPause(r *vk.Run) {
+	for _, kind := range []string{"add-update-remove", "adds"} {
+		col := resource.NewCollection(resource.WithClock(clk{}))
+		ctx, cancel := context.WithCancel(context.Background())
+		c := newConsumer()
+		c.cancel = cancel
+		c.runCol(col.Pull(ctx, resource.WithBackpressure(true)))
+		done := make(chan struct{})
+		var errs []error
+		go func() {
+			defer close(done)
+			if kind == "adds" {
+				for k := 0; k < 3; k++ {
+					_, err := col.Add(fmt.Sprintf("p%d", k), mkValLocked("p"))
+					errs = append(errs, err)
+				}
+				return
+			}
+			_, e1 := col.Add("p", mkValLocked("p"))
+			_, e2 := col.Update("p", mkValLocked("p"))
+			_, e3 := col.Delete("p")
+			errs = append(errs, e1, e2, e3)
+		}()
+		time.Sleep(6500 * time.Millisecond) // the subscriber pauses (real time: the library's timeouts are real time)
+		c.grant(1 << 20)
+		select {
+		case <-done:
+		case <-time.After(120 * time.Second):
+			r.Inconclusive("collection-long-pause-watchdog", "three writes with a subscriber that resumed receiving did not return within 120 s")
+			c.stop()
+			return
+		}
+		// the events still in flight reach the consumer promptly; wait (bounded) for three, then look
+		for w := 0; w < 6000 && c.nCol() < 3; w++ { // up to a minute: only a run that is about to report waits that long
+			time.Sleep(10 * time.Millisecond)
+		}
+		r.Eval(1)
+		r.Count("collection-long-pause-trials", 1)
+		r.Distinct("long-pause:" + kind)
+		c.mu.Lock()
+		evs := append([]*resource.CollectionChange{}, c.colEv...)
+		c.mu.Unlock()
+		nerr := 0
+		for _, e := range errs {
+			if e != nil {
+				nerr++
+			}
+		}
+		if len(evs) != 3 || nerr != 0 {
+			r.Violation("C09/dropped-with-backpressure/pull/long-pause", fmt.Sprintf("[%s] a backpressured collection subscriber paused for 6.5 s and then kept receiving: it got %d of 3 changes (%d writes reported an error)\nreceived:\n    %s", kind, len(evs), nerr, renderCol(evs)), map[string]any{"kind": kind})
+		}
+		c.stop()
+	}
 }
 
 func slowButLive(r *vk.Run) {
